@@ -39,6 +39,25 @@ def u64 (n : Nat) : UInt64 := n.toUInt64
 def parseCalls {κ : Type} (f : Sexp → Option κ) (calls : List Sexp) : Option (List κ) :=
   (calls.filter (fun c => match c with | .list [.atom "probe"] => false | _ => true)).mapM f
 
+/-- `(via_default)` (PROTOCOL.md §4.3): the harness constructs the builder with `Default::default()`
+    instead of the constructor function; a no-op on the model. Allowed only as the first CALL of
+    `nack` / `fir` / `rpsi` / `sdes` / `compound` (checked for the whole request by `viaDefaultOk`);
+    `stripViaDefault` drops it from the head of such a call list. -/
+def stripViaDefault : List Sexp → List Sexp
+  | .list [.atom "via_default"] :: rest => rest
+  | l => l
+
+def viaDefaultHeads : List String := ["nack", "fir", "rpsi", "sdes", "compound"]
+
+/-- every list headed by the atom `via_default` is exactly `(via_default)` and the first element
+    after the head of a `nack` / `fir` / `rpsi` / `sdes` / `compound` list -/
+partial def viaDefaultOk : Sexp → Bool
+  | .atom _ => true
+  | .list (.atom "via_default" :: _) => false   -- an occurrence nobody skipped
+  | .list (.atom h :: args) =>
+    (if viaDefaultHeads.contains h then stripViaDefault args else args).all viaDefaultOk
+  | .list xs => xs.all viaDefaultOk
+
 def parseRbCall : Sexp → Option RbCall
   | .list [.atom "fl", n] => do pure (RbCall.fl (u8 (← n.toNat?)))
   | .list [.atom "cl", n] => do pure (RbCall.cl (u32 (← n.toNat?)))
@@ -86,11 +105,13 @@ def parseRpsiCall : Sexp → Option RpsiCall
 
 def evalFci : Sexp → Option FciB
   | .list (.atom "nack" :: calls) => do
+    let calls := stripViaDefault calls
     let ss ← parseCalls (fun c => match c with
       | .list [.atom "add", n] => do pure (u16 (← n.toNat?))
       | _ => none) calls
     pure (.nack (NackBuilder.run {} ss))
   | .list (.atom "fir" :: calls) => do
+    let calls := stripViaDefault calls
     let es ← parseCalls (fun c => match c with
       | .list [.atom "add", s, q] => do pure (u32 (← s.toNat?), u8 (← q.toNat?))
       | _ => none) calls
@@ -102,7 +123,7 @@ def evalFci : Sexp → Option FciB
     -- `SliBuilder.run {} es` without its quadratic appends (Props.sli_run: the two are equal)
     pure (.sli ⟨es.map (fun e => ⟨e.1, e.2.1, e.2.2⟩)⟩)
   | .list (.atom "rpsi" :: calls) => do
-    pure (.rpsi (RpsiBuilder.run {} (← parseCalls parseRpsiCall calls)))
+    pure (.rpsi (RpsiBuilder.run {} (← parseCalls parseRpsiCall (stripViaDefault calls))))
   | .list [.atom "pli"] => some .pli
   | _ => none
 
@@ -170,7 +191,7 @@ partial def evalBuilder : Sexp → Option Cfg
     let s ← ssrc.toNat?
     pure (.sr ((SrBuilder.new (u32 s)).run (← parseCalls parseSrCall calls)))
   | .list (.atom "sdes" :: calls) => do
-    pure (.sdes (SdesBuilder.new.run (← parseCalls parseSdesCall calls)))
+    pure (.sdes (SdesBuilder.new.run (← parseCalls parseSdesCall (stripViaDefault calls))))
   | .list (.atom "unknown" :: ty :: data :: calls) => do
     let t ← ty.toNat?
     let d ← data.toBytes?
@@ -184,7 +205,7 @@ partial def evalBuilder : Sexp → Option Cfg
     | _ => none
   | .list (.atom "compound" :: ms) => do
     -- `(probe)` between members is a no-op on the model
-    let ms := ms.filter (fun m => match m with | .list [.atom "probe"] => false | _ => true)
+    let ms := (stripViaDefault ms).filter (fun m => match m with | .list [.atom "probe"] => false | _ => true)
     let l ← ms.mapM evalBuilder
     if l.all (fun c => match c with | .chunk _ | .item _ | .fci _ => false | _ => true) then pure (.compound l) else none
   | .list (.atom "custom" :: pt :: min :: body :: calls) => do
@@ -339,6 +360,7 @@ def specLines (cfg : Cfg) : Out :=
   if v.isEmpty then o.push ("spec.image", hexOf cfg.image) else o
 
 def execBuild (b : Sexp) (bufs : List Sexp) : Out := Id.run do
+  if !viaDefaultOk b then return #[("bad-request", "via_default")]
   match evalBuilder b with
   | none => return #[("bad-request", "builder")]
   | some cfg =>
@@ -360,6 +382,11 @@ def execBuild (b : Sexp) (bufs : List Sexp) : Out := Id.run do
           match r with
           | .panic => pure ()
           | _ => o := o.push (s!"w{j}.buf", hexOf buf')
+          -- second write of the same builder into the same (corrupted) slice: the model's writer
+          -- is a function of the builder and the buffer length
+          match r with
+          | .ok _ => o := o.push (s!"w{j}.rewrite_same", "true")
+          | _ => pure ()
         | _, _ => return #[("bad-request", "bufspec")]
       | _ => return #[("bad-request", "bufspec")]
       j := j + 1
@@ -375,6 +402,34 @@ def execBuild (b : Sexp) (bufs : List Sexp) : Out := Id.run do
     -- specification side
     o := o ++ specLines cfg
     return o
+
+/-- a whole packet (a `compound` MEMBER): what `(interleave A B)` accepts -/
+def Cfg.isPacket : Cfg → Bool
+  | .chunk _ | .item _ | .fci _ => false
+  | _ => true
+
+/-- `(interleave A B)` (PROTOCOL.md §4.5): the model's builders are values, A and B are evaluated
+    independently; the written image is that of a build request with `(bufs (n ee))`. -/
+def execInterleave (a b : Sexp) : Out := Id.run do
+  if !viaDefaultOk a || !viaDefaultOk b then return #[("bad-request", "via_default")]
+  match evalBuilder a, evalBuilder b with
+  | some ca, some cb =>
+    if !ca.customsOk || !cb.customsOk then return #[("bad-request", "custom-grid")]
+    if !ca.isPacket || !cb.isPacket then return #[("bad-request", "interleave")]
+    let wa := ca.toWriter
+    let wb := cb.toWriter
+    let mut o : Out := #[("a.size", resW wa.calcSize), ("b.size", resW wb.calcSize)]
+    match wa.calcSize, wb.calcSize with
+    | .ok na, .ok nb =>
+      for (pfx, w, n) in [("a", wa, na), ("b", wb, nb)] do
+        let (buf', r) := w.writeInto (List.replicate n 0xee)
+        o := o.push (pfx ++ ".res", resW r)
+        match r with
+        | .panic => pure ()
+        | _ => o := o.push (pfx ++ ".buf", hexOf buf')
+    | _, _ => pure ()
+    return o
+  | _, _ => return #[("bad-request", "builder")]
 
 def addPadding (p : Bytes) (n : Nat) : Bytes := Rtcp.Spec.addPadding p n
 
@@ -498,7 +553,11 @@ def execRequest (line : String) : Out :=
       #[("padded", hexOf q)] ++ dumpView "a." k d ++ dumpView "b." k q
     | _, _, _ => #[("bad-request", "pad-args")]
   | some (.list [.atom "build", b, .list (.atom "bufs" :: bufs)]) => execBuild b bufs
+  -- `(rt_first)` only changes the order of the harness's calls
+  | some (.list [.atom "build", b, .list (.atom "bufs" :: bufs), .list [.atom "rt_first"]]) => execBuild b bufs
+  | some (.list [.atom "interleave", a, b]) => execInterleave a b
   | some (.list [.atom "size", b]) =>
+    if !viaDefaultOk b then #[("bad-request", "via_default")] else
     match evalBuilder b with
     | none => #[("bad-request", "builder")]
     | some cfg =>
